@@ -84,8 +84,10 @@ structure SynCell where
   deriving Repr, Inhabited
 
 /-- List helpers: indexed update. -/
-def setAt {α : Type} (l : List α) (i : Nat) (f : α → α) : List α :=
-  l.mapIdx (fun j x => if j == i then f x else x)
+def setAt {α : Type} : List α → Nat → (α → α) → List α
+  | [], _, _ => []
+  | x :: xs, 0, f => f x :: xs
+  | x :: xs, i + 1, f => x :: setAt xs i f
 
 /-- IndexMap / IndexSet `swap_remove` of the element at index `i`. -/
 def swapRemoveAt {α : Type} (l : List α) (i : Nat) : List α :=
